@@ -118,7 +118,13 @@ func doComp(e *c01.Emitter, codes []string, fault string, class string) {
 	for _, c := range codes {
 		script = append(script, compItem(c))
 	}
-	cs := c01.Case{Script: script, Fault: fault, Render: compRender,
+	// `<fault>.<kind>`: the kind of context that is done (see c01.MakeCtx)
+	ctxKind := byte(0)
+	bare := fault
+	if i := strings.Index(fault, "."); i >= 0 && i+1 < len(fault) {
+		bare, ctxKind = fault[:i], fault[i+1]
+	}
+	cs := c01.Case{Script: script, Fault: bare, Ctx: ctxKind, Render: compRender,
 		Custom: func(ctx context.Context, c net.Conn) (*xmpp.Session, error) {
 			return component.NewSession(ctx, jid.MustParse("comp.example.net"), []byte("secret"), c)
 		}}
@@ -191,14 +197,26 @@ func runComponent(e *c01.Emitter) {
 		for k := 0; k <= ops; k++ {
 			doComp(e, good, fmt.Sprint(k), "fault")
 			doComp(e, good, fmt.Sprint(k, "+"), "fault")
-			doComp(e, good, fmt.Sprintf("B%d", k), "blocked-cancel")
 		}
-		for n := 0; n <= ops+1; n++ {
-			doComp(e, good, fmt.Sprintf("C%d", n), "cancel")
+		for _, suffix := range []string{"", ".d", ".p", ".n"} {
+			// a deadline that really expires costs real time: shortest handshakes only in the quick tier
+			if suffix == ".n" && r.Quick() && len(good) != 2 {
+				continue
+			}
+			for k := 0; k <= ops; k++ {
+				if !c01.SkipForStalls() {
+					doComp(e, good, fmt.Sprintf("B%d%s", k, suffix), "blocked-cancel")
+				}
+			}
+			for n := 0; n <= ops+1; n++ {
+				if !c01.SkipForStalls() {
+					doComp(e, good, fmt.Sprintf("C%d%s", n, suffix), "cancel")
+				}
+			}
 		}
 		for n := 0; n < len(good); n++ {
 			doComp(e, good[:n], "-", "cut")
 		}
 	}
-	r.Exhaustive = append(r.Exhaustive, fmt.Sprintf("component handshake: every peer script of length <= %d over 8 item kinds; the two good handshakes under every failing / blocking operation, every cancellation instant and every end of input", maxLen))
+	r.Exhaustive = append(r.Exhaustive, fmt.Sprintf("component handshake: every peer script of length <= %d over 8 item kinds; the good handshakes under every failing / blocking operation, every cancellation instant (four kinds of context) and every end of input", maxLen))
 }
